@@ -251,6 +251,7 @@ func VerifHarness_C19() {
 	desired := verifInt("desired", 0, int64(I)+1)
 	verifAssume(min <= desired)
 	w := newAWSWorld(min, int64(I)+3, desired, I, cloudprovider.AWSNodeGroupConfig{})
+	w.J.TypedErrors = true
 	failAt := verifChoice("terminateFailAt", K+1) // 0 = none
 	var nodes []*v1.Node
 	var want []string
@@ -321,7 +322,6 @@ func VerifHarness_C19() {
 	verifReachIf("C19.refused", verifNot(allowed))
 }
 
-
 // VerifHarness_C17_after_delete: a scale-up that follows node removals in the
 // same run (no Refresh in between) still sets exactly current + d, where
 // current is the ASG's desired capacity at call time.
@@ -356,7 +356,6 @@ func VerifHarness_C17_after_delete() {
 	}
 	verifAssert("C17.after-delete-one-call", n == 1 && err == nil)
 }
-
 
 // VerifHarness_C17_sequence: a scale-up that AWS (or the provider's own bounds
 // check) rejected leaves no trace: a following scale-up on the same group sets
@@ -395,7 +394,6 @@ func VerifHarness_C17_sequence() {
 	}
 }
 
-
 // awsNode builds the Node object backed by instance id.
 func awsNode(name, id string) *v1.Node {
 	n := &v1.Node{}
@@ -406,10 +404,14 @@ func awsNode(name, id string) *v1.Node {
 
 // VerifHarness_C19_history: the same removal contract after the node group object has a past.
 // mode 0: an earlier scan looked nodes up and removed one; then instances leave and join the
-//   cloud group one for one (same size), the provider refreshes, and a batch is removed:
-//   membership is that of the current scan.
+//
+//	cloud group one for one (same size), the provider refreshes, and a batch is removed:
+//	membership is that of the current scan.
+//
 // mode 1: an earlier batch of the same run failed midway (some instances terminated, the cloud
-//   already decremented); the next batch is judged against what the cloud holds now.
+//
+//	already decremented); the next batch is judged against what the cloud holds now.
+//
 // shape: [instances, nodes passed, mode]
 func VerifHarness_C19_history() {
 	I, K, mode := verifShape(0), verifShape(1), verifShape(2)
@@ -527,6 +529,7 @@ func VerifHarness_C18_history() {
 	batches := (m + batchSize - 1) / batchSize
 	cfg := cloudprovider.AWSNodeGroupConfig{LaunchTemplateID: "lt-1", LaunchTemplateVersion: "1", FleetInstanceReadyTimeout: 1500 * time.Millisecond}
 	w := newAWSWorld(0, int64(m*A)+10, 2, 0, cfg)
+	w.J.TypedErrors = true // a failing call may be a plain error, AWS throttling or an AWS ValidationError
 	exited := false
 	for a := 1; a <= A && !exited; a++ {
 		as := "a" + strconv.Itoa(a) + "."
@@ -549,6 +552,7 @@ func VerifHarness_C18_history() {
 			w.EC2.ReadyAfter = 0
 		case 1:
 			w.AS.AttachFailAt = w.AS.attachCalls + int(verifInt(as+"k", 1, int64(batches)))
+			w.AS.AttachFailFor = []int{1, 5}[verifChoice(as+"persistent", 2)] // a one-off failure, or one that outlasts any retry
 		}
 		mark := len(w.J.Calls)
 		var err error
